@@ -413,7 +413,9 @@ func ltEncode(db *laptimer.DB, gz bool) ([]byte, error) {
 
 func ltDecode(data []byte) (*laptimer.DB, error) {
 	var db laptimer.DB
-	if err := laptimer.NewDecoder(bytes.NewReader(data)).Decode(&db); err != nil {
+	rd, done := readerFor(data, false)
+	defer done()
+	if err := laptimer.NewDecoder(rd).Decode(&db); err != nil {
 		return nil, err
 	}
 	return &db, nil
